@@ -430,9 +430,9 @@ void verif_enumerate(verif::Ctx &ctx)
     ctx.max_samples = 200;
     if (ctx.sub == "clock")
     {
-        for (int p = 0; p <= N_PROGRAMS; ++p) for (int h = 0; h < (th ? 2 : 1); ++h)
+        for (int p = 0; p <= N_PROGRAMS; ++p) for (int h = 0; h < 2; ++h)
         {
-            const std::string desc = "clock:" + std::to_string(p) + std::to_string(h) + ";bound=" + std::to_string(th ? 3 : 2);
+            const std::string desc = "clock:" + std::to_string(p) + std::to_string(h) + ";bound=" + std::to_string(th ? 5 : 3);
             SchedCase c = parse_sched(desc);
             vs::explore_config(ctx, desc, c.bound, th ? 30000000 : 3000000, [&](const std::vector<int> &pf, std::vector<vs::ChoicePoint> &t) { return execute_sched(c.progs, c.jump, pf, t); });
         }
